@@ -97,6 +97,11 @@ pub fn boundary(f: &Field, base: u32, n: usize) -> Vec<u32> {
             keep.push(v[i as usize]);
             i += step;
         }
+        // the sector size keeps every legal value in every pair / triple set: sector-size dependent arithmetic (rounding
+        // of the root directory, sectors per FAT, fs-info position) has to meet every other changed field on large sectors too
+        if f.name == "bytes_per_sector" {
+            keep.extend([512, 1024, 2048, 4096]);
+        }
         keep.sort_unstable();
         keep.dedup();
         keep
@@ -456,7 +461,7 @@ pub fn run(tier: &str) -> i32 {
     rep.coverage = json!({
         "evaluations": acc.evals.load(Ordering::Relaxed),
         "distinct_nontrivial": classes.len() as u64 + 2,
-        "rule": "per base image (library-made FAT12/16/32, builder-made FAT32 mirror-off 4096-byte sectors, builder-made FAT16 with 3 FATs): every value of every 8/16-bit BPB field, boundary set B32 for 32-bit fields, all pairs of fields on boundary sets, all triples of the geometry fields, fs-info signatures/count/hint on B32, device truncated inside boot / fs-info sector; each with strict and non-strict mount; distinct_nontrivial counts distinct (base, field group) classes plus the accepted/rejected split",
+        "rule": "per base image (library-made FAT12/16/32, builder-made FAT32 mirror-off 4096-byte sectors, builder-made FAT16 with 3 FATs): every value of every 8/16-bit BPB field, boundary set B32 for 32-bit fields, all pairs of fields on boundary sets, all triples of the geometry fields (the sector-size field keeps all four legal sizes 512/1024/2048/4096 in every pair and triple set), fs-info signatures/count/hint on B32, device truncated inside boot / fs-info sector; each with strict and non-strict mount; distinct_nontrivial counts distinct (base, field group) classes plus the accepted/rejected split",
         "samples": sample,
         "exhaustive": !capped,
         "accepted_mounts": accepted,
